@@ -574,6 +574,8 @@ ListedAreArmed ==
                           \/ (C.lock # NOPROC /\ L[C.lock].cont = "term")
 \* C10: closed is final
 ClosedShape == (C.sc = 0 /\ C.rc = 0) => (C.lock # NOPROC \/ (C.wl = <<>> /\ C.queue = <<>>))
+\* C11: once one side has no handle left nobody stays listed (the last drop terminates every waiter)
+DisconnectShape == (C.sc = 0 \/ C.rc = 0) => (C.lock # NOPROC \/ C.wl = <<>>)
 \* C07 (design level): a claimer only touches a signal that is still alive and not yet finished by it
 Claiming(q) == L[q].pc \in {"hw", "kp_read", "k_cas", "k_clone", "k_store", "ka_clone", "ka_store"}
 NoAccessToDeadSignal == \A q \in Procs : Claiming(q) => S[L[q].tgt].st # "NIL"
@@ -595,6 +597,14 @@ Terminal == \A p \in Procs : ~ENABLED Step(p)
 Blocked(p) == \/ L[p].pc = "w_park" /\ S[p].st = "STARV" /\ InWl(p)
               \/ L[p].pc = "f_idle" /\ L[p].fst = "Waiting" /\ S[p].st = "LOCKED" /\ InWl(p)
 NoStuck == Terminal => \A p \in Procs : L[p].pc \in {"idle", "gone"} \/ Blocked(p)
+\* C06 as a temporal property: under weak fairness of every process (a scheduled thread keeps running) every
+\* operation that has started returns, or ends up legitimately blocked (listed, armed, nobody to serve it)
+Fairness == \A p \in Procs : WF_vars(Step(p))
+FairSpec == Spec /\ Fairness
+Busy(p) == L[p].pc \notin {"idle", "gone"} /\ ~Blocked(p)
+Completes == \A p \in Procs : Busy(p) ~> ~Busy(p)
+\* a released waiter (final state stored into its signal) always gets to return
+ReleasedReturns == \A p \in Procs : (S[p].st \in Final /\ L[p].pc \in {"w_park", "w_spin", "w_chk", "tw_now", "tw_load"}) ~> (S[p].st = "NIL")
 NoLeak == Terminal => \A m \in G.created :
              \/ Cnt(G.delivered, m) + Cnt(G.dropped, m) = 1
              \/ InQueue(m)
